@@ -53,6 +53,7 @@ class Engine:
                           claims_trivial=0, depth_hits=0, unmodelled=0, aborted=0)
         self.pc = []
         self.inputs = {}        # name -> z3 var (per path, redeclared deterministically)
+        self.input_bounds = {}  # name -> (lo, hi) | "bool"  (union over all paths; used for the concrete probes)
         self.path = None
         self._model = None
 
@@ -960,6 +961,7 @@ def sym_int(name, lo, hi):
     e = eng()
     v = z3.Int(name)
     e.inputs[name] = v
+    e.input_bounds[name] = (lo, hi)
     e.solver.add(v >= lo, v <= hi)
     e._model = None
     e.pc.append(v >= lo)
@@ -971,6 +973,7 @@ def sym_bool(name):
     e = eng()
     v = z3.Bool(name)
     e.inputs[name] = v
+    e.input_bounds[name] = "bool"
     return SBool(v)
 
 
